@@ -138,19 +138,19 @@ Print Assumptions C03_two_columns_run_a_shared_function_twice.
    of them re-opens this property even if no sampled case shows a difference.  Rewritten by tools/pin_shapes.py on a tree on which every check passes. *)
 From Connectome Require VmGen GlueGraphGen GlueChainGen GlueColumnsGen.
 Theorem C03_mirrored_functions_are_the_pinned_ones :
-  VmGen.shape_execute = "3390af1da9648cc9" /\
-  GlueGraphGen.shape_class_Graph = "9b10ec592949c6f4" /\
-  GlueGraphGen.shape_evaluate = "2cfd3509723284f1" /\
-  GlueGraphGen.shape_compute_hash = "e8fe66bcf0ec3ecc" /\
-  GlueGraphGen.shape_class_GraphCompiler = "b1003ba6d768dee1" /\
-  GlueGraphGen.shape_find_dependencies = "98effd5d1564b846" /\
-  GlueGraphGen.shape_class_TreeNode = "f3a44e95e44d05b5" /\
-  GlueChainGen.shape_class_CallableLayer = "c80fc9ed956106f0" /\
-  GlueChainGen.shape_class_Instance = "e7a645f498b26984" /\
-  GlueChainGen.shape_class_Chain = "9d9b18d30947136d" /\
-  GlueChainGen.shape_class_LazyChain = "a1c1f777b7f04bfb" /\
-  GlueChainGen.shape_connect = "32cfcae91c959073" /\
-  GlueColumnsGen.shape_class_CacheColumns = "50ebcb3d340e0894".
+  VmGen.shape_execute = "3390af1da9648cc9"%string /\
+  GlueGraphGen.shape_class_Graph = "9b10ec592949c6f4"%string /\
+  GlueGraphGen.shape_evaluate = "2cfd3509723284f1"%string /\
+  GlueGraphGen.shape_compute_hash = "e8fe66bcf0ec3ecc"%string /\
+  GlueGraphGen.shape_class_GraphCompiler = "b1003ba6d768dee1"%string /\
+  GlueGraphGen.shape_find_dependencies = "98effd5d1564b846"%string /\
+  GlueGraphGen.shape_class_TreeNode = "f3a44e95e44d05b5"%string /\
+  GlueChainGen.shape_class_CallableLayer = "c80fc9ed956106f0"%string /\
+  GlueChainGen.shape_class_Instance = "e7a645f498b26984"%string /\
+  GlueChainGen.shape_class_Chain = "9d9b18d30947136d"%string /\
+  GlueChainGen.shape_class_LazyChain = "a1c1f777b7f04bfb"%string /\
+  GlueChainGen.shape_connect = "32cfcae91c959073"%string /\
+  GlueColumnsGen.shape_class_CacheColumns = "50ebcb3d340e0894"%string.
 Proof. repeat split; reflexivity. Qed.
 Print Assumptions C03_mirrored_functions_are_the_pinned_ones.
 (* END PINNED FINGERPRINTS *)
